@@ -198,22 +198,61 @@ class EquivMonitor(Monitor):
             ctx.stat("equiv.e2e")
             if j2["verdict"] in self.kinds:
                 self.chain_ok = False
-                sig = {
-                    "prop": "C01",
-                    "monitor": "equiv-e2e",
-                    "kind": j2["verdict"],
-                    "op": op,
-                    "features": ir_features(root_ir),
-                    "chain": [s["op"] for s in sess.steps[self.root_idx :]],
-                }
-                case = mk_case(
-                    sess,
-                    sess.steps,
-                    "equiv-e2e",
-                    j2["spec"],
-                    {"witness": j2["witness"], "root_idx": self.root_idx},
-                )
+                self.attribute_chain(sess, j2)
+
+
+    def attribute_chain(self, sess, j2):
+        """an end-to-end difference is blamed on the first step of the chain whose
+        input and output procedure differ on the witness input"""
+        ctx = self.ctx
+        spec = j2["spec"]
+        procs = sess.procs
+        for i in range(self.root_idx, len(procs) - 1):
+            a, b = procs[i]._loopir_proc, procs[i + 1]._loopir_proc
+            if a is b:
+                continue
+            _, mf = equiv.reported_mod_fields(a, b)
+            c = equiv.compare_on(a, b, spec, mf)
+            if c.status in ("same",):
+                continue
+            step = sess.steps[i]
+            op = step["op"]
+            if c.status == "diff":
+                kind = "diff"
+            elif c.status == "skip_old":
+                # the chain's own intermediate is not event-free on an input that is
+                # valid for the root: the step that produced it broke safety (C04)
+                kind = "chain_intermediate_unsafe"
+                step = sess.steps[i - 1] if i > self.root_idx else step
+                op = step["op"]
+            else:
+                kind = c.status
+            sig = {
+                "prop": "C01",
+                "monitor": "equiv",
+                "kind": kind if kind in ("diff",) else f"e2e:{kind}",
+                "op": op,
+                "features": ir_features(a),
+                "via": "e2e",
+            }
+            diag = diagnose(op, a, b, step, sess)
+            if diag:
+                sig["diag"] = diag
+            upto = i + 1 if kind == "diff" or c.status != "skip_old" else i
+            case = mk_case(
+                sess,
+                sess.steps[:upto],
+                "equiv",
+                spec,
+                {"witness": c.detail if not hasattr(c.detail, "as_dict") else c.detail.as_dict(), "before": sstr(procs[upto - 1]), "after": sstr(procs[upto])},
+            )
+            if kind == "diff":
                 ctx.violation(sig, case)
+                ctx.stat(f"viol.equiv.{op}")
+            else:
+                ctx.stat(f"e2e.unattributed.{kind}")
+            return
+        ctx.stat("e2e.unattributed.none")
 
 
 class SafetyMonitor(Monitor):
